@@ -63,7 +63,7 @@ def result_stores(ck, facts, R):
                "earlier solve can leave behind for later queries")
     fields, types = persistent_fields(facts)
     ck.count("persistent-state-types", len(types))
-    ck.floor(R, "persistent-fields", len(fields), 57)
+    ck.floor(R, "persistent-fields", len(fields), 45)
     n = 0
     for adt, fld, ty in fields:
         key = "%s.%s" % (adt, fld)
@@ -77,7 +77,7 @@ def result_stores(ck, facts, R):
             ck.violation(R, "unaudited-result-store:%s" % key, "%s:%s" % (a.get("file"), a.get("ln")),
                          "field `%s: %s` keeps solver results inside the solver across queries, but no rule says who may write it or that an "
                          "interrupted / earlier solve cannot leave a partial value in it" % (fld, ty[:120]))
-    ck.floor(R, "result-holding-fields", n, 19)
+    ck.floor(R, "result-holding-fields", n, 15)
 
 
 def any_future_answer(ck, facts, R):
